@@ -2,7 +2,8 @@
 
 derivative / gradient / hessian (Model/Deriv.v), call (Model/Eval.v), simple_dispatch (dispatch1 / dispatch2 of Model/Poly.v:
 add, subtract, negative, positive and the other column-wise wrappers go through it), multiply and power (Model/Poly.v), and prod,
-matmul, det, inner, outer, diff, ediff1d (Model/Reduce.v).  Same method as
+matmul, det, inner, outer, diff, ediff1d (Model/Reduce.v), and the four aligners of align.py (Model/Poly.v; C04, and C20 because
+every binary operation merges the operands' exponent rows there).  Same method as
 query_tr.py: every statement, after canonical renaming of locals and with logging dropped, is compared with the statement the
 model was written from; one fact per statement; a changed signature or statement count raises.  The table below is the
 normalised text of the tree the models were validated against (correspondence checks of C01, C02, C06, C10).
@@ -268,7 +269,50 @@ EXPECTED = [('C06',
    'v2 = numpoly.ndpoly(exponents=v1[0].exponents, shape=(sum([ary.size for ary in v1]),), names=v1[0].names, dtype=ary[0].dtype)',
    'v3 = 0',
    'for ary in v1:\n    for v4 in ary.keys:\n        v2.values[v4][v3:v3 + ary.size] = ary.values[v4]\n    v3 += ary.size',
-   'return v2'])]
+   'return v2']),
+ ('C04,C20', 'align.py', 'align_polynomials', ['*polys'], ['polys = align_shape(*polys)', 'polys = align_exponents(*polys)', 'return polys']),
+ ('C04,C20',
+  'align.py',
+  'align_shape',
+  ['*polys'],
+  ['v0 = [numpoly.aspolynomial(v1) for v1 in polys]',
+   'v2 = numpy.ones(numpy.broadcast_shapes(*[v1.shape for v1 in v0]), dtype=bool)',
+   'for v3, v1 in enumerate(v0):\n'
+   '    if v1.shape != v2.shape:\n'
+   '        v0[v3] = v1.from_attributes(exponents=v1.exponents, coefficients=tuple((v4 * v2 for v4 in v1.coefficients)), names=v1.indeterminants)',
+   'return tuple(v0)']),
+ ('C04,C20',
+  'align.py',
+  'align_indeterminants',
+  ['*polys'],
+  ['v0 = [numpoly.aspolynomial(v1) for v1 in polys]',
+   'v2 = get_options()',
+   "v3 = len(v2['default_varname'])",
+   "v4 = tuple(sorted({str(v5) for v1 in v0 for v5 in v1.names}, key=lambda x: int(x[v3:] or '0')))",
+   'if not v4:\n    return tuple(v0)',
+   'for v6, v1 in enumerate(v0):\n'
+   '    if v1.names == v4:\n'
+   '        continue\n'
+   '    v7 = numpy.array([v4.index(v5) for v5 in v1.names if v5 in v4])\n'
+   '    v8 = numpy.zeros((len(v1.keys), len(v4)), dtype=int)\n'
+   '    if v7.size:\n'
+   '        v8[:, v7] = v1.exponents\n'
+   '    v0[v6] = numpoly.ndpoly.from_attributes(exponents=v8, coefficients=v1.coefficients, names=v4, retain_coefficients=True, retain_names=True)',
+   'return tuple(v0)']),
+ ('C04,C20',
+  'align.py',
+  'align_exponents',
+  ['*polys'],
+  ['v0 = [numpoly.aspolynomial(v1) for v1 in polys]',
+   'if not all((v0[0].names == v1.names for v1 in v0)):\n    v0 = list(align_indeterminants(*v0))',
+   'v2 = numpy.vstack([v1.exponents for v1 in v0])',
+   'v2 = numpy.unique(v2, axis=0).tolist()',
+   'for v3, v1 in enumerate(v0):\n'
+   '    v4 = {tuple(v5): v6 for v5, v6 in zip(v1.exponents, v1.coefficients)}\n'
+   '    v7 = numpy.zeros(v1.shape, dtype=v1.dtype)\n'
+   '    v8 = [v4.get(tuple(v5), v7) for v5 in v2]\n'
+   '    v0[v3] = v1.from_attributes(exponents=v2, coefficients=v8, names=v1.names, retain_coefficients=True, retain_names=True)',
+   'return tuple(v0)'])]
 
 
 def translate(repo):
